@@ -53,10 +53,6 @@ func c28Strings(es []osutil.MountEntry) []string {
 	return out
 }
 
-func c28EntryEqual(a, b *osutil.MountEntry) bool {
-	return a.Equal(b)
-}
-
 func c28Beneath(child, parent string) bool {
 	return strings.HasPrefix(child, strings.TrimSuffix(parent, "/")+"/")
 }
@@ -169,6 +165,13 @@ func (mo *c28Mon) runHistory(idx int, scratch string) {
 			return
 		}
 		ctx := &c28Ctx{desiredText: desiredText, currentText: currentText}
+		// what the planner's probes will see (nothing is performed before the
+		// whole change list has been computed)
+		existedAtPlan := map[string]bool{}
+		for i := range prof {
+			_, lerr := os.Lstat(prof[i].Dir)
+			existedAtPlan[filepath.Clean(prof[i].Dir)] = lerr == nil
+		}
 		uerr := executeMountProfileUpdate(ctx)
 		c.Count("updates_run", 1)
 
@@ -223,7 +226,7 @@ func (mo *c28Mon) runHistory(idx int, scratch string) {
 		}
 
 		mo.checkUnmountOrder(idx, ui, current, sim.recs, witness)
-		mo.checkMountOrder(idx, ui, sim.recs, witness)
+		mo.checkMountOrder(idx, ui, sim.recs, existedAtPlan, witness)
 
 		if uerr != nil {
 			// a layout/overname change failed: the update stopped, nothing was
@@ -592,7 +595,7 @@ func (mo *c28Mon) checkUnmountOrder(idx, ui int, current []osutil.MountEntry, re
 // ---------------------------------------------------------------------------
 // (d) mount order within one origin
 
-func (mo *c28Mon) checkMountOrder(idx, ui int, recs []c28Rec, witness func(map[string]interface{}) map[string]interface{}) {
+func (mo *c28Mon) checkMountOrder(idx, ui int, recs []c28Rec, existedAtPlan map[string]bool, witness func(map[string]interface{}) map[string]interface{}) {
 	c := mo.c
 	var ms []*c28Rec
 	for i := range recs {
@@ -612,12 +615,15 @@ func (mo *c28Mon) checkMountOrder(idx, ui int, recs []c28Rec, witness func(map[s
 			}
 			if c28Beneath(ad, bd) {
 				sig := "C28:mount-order:entry-mounted-before-the-entry-containing-it:" + c28Origin(a)
-				if a.XSnapdKind() == "ensure-dir" && !ms[j].TargetExisted {
-					// the planner never probes ensure-dir targets
+				if a.XSnapdKind() == "ensure-dir" && !existedAtPlan[ad] {
+					// the planner never probes ensure-dir targets: a missing one
+					// is planned with the entries whose target exists, ahead of
+					// the entries that need their target created
 					sig = "C28:mount-order:missing-ensure-dir-target-planned-as-existing"
 				}
 				c.Violation(sig, witness(map[string]interface{}{
-					"update": ui, "mounted_first": a.String(), "mounted_later": b.String(), "first_target_existed": ms[j].TargetExisted}))
+					"update": ui, "mounted_first": a.String(), "mounted_later": b.String(),
+					"first_target_existed_when_planned": existedAtPlan[ad], "first_target_existed_when_mounted": ms[j].TargetExisted}))
 			}
 		}
 	}
@@ -625,6 +631,22 @@ func (mo *c28Mon) checkMountOrder(idx, ui int, recs []c28Rec, witness func(map[s
 
 // ---------------------------------------------------------------------------
 // (e) codec
+
+func c28LoadTrimmingOnlyBlanks(text string) ([]osutil.MountEntry, error) {
+	var out []osutil.MountEntry
+	for _, line := range strings.Split(text, "\n") {
+		line = strings.Trim(line, " \t")
+		if line == "" || line[0] == '#' {
+			continue
+		}
+		e, err := osutil.ParseMountEntry(line)
+		if err != nil {
+			return nil, err
+		}
+		out = append(out, e)
+	}
+	return out, nil
+}
 
 func c28LeadingUnicodeSpace(s string) bool {
 	r, _ := utf8.DecodeRuneInString(s)
@@ -684,10 +706,17 @@ func (mo *c28Mon) runCodec(idx int, scratch string) {
 	}
 	if err != nil || !c28SameEntries(entries, back.Entries) {
 		sig := "C28:codec:profile-roundtrip:other"
-		for i := range entries {
-			if c28LeadingUnicodeSpace(entries[i].Name) {
-				// ReadMountProfile trims the line with strings.TrimSpace
-				sig = "C28:codec:profile-roundtrip:leading-unicode-whitespace-of-first-field-trimmed"
+		// Cause isolation: ReadMountProfile trims every line with
+		// strings.TrimSpace although only ' ' and '\t' separate fields. When a
+		// reader that differs from it in nothing but that (same line split,
+		// same comment rule, the real ParseMountEntry) gets the entries back,
+		// and a first field does start with such white space, the trimming is
+		// the whole explanation.
+		if alt, aerr := c28LoadTrimmingOnlyBlanks(text); aerr == nil && c28SameEntries(entries, alt) {
+			for i := range entries {
+				if c28LeadingUnicodeSpace(entries[i].Name) {
+					sig = "C28:codec:profile-roundtrip:leading-unicode-whitespace-of-first-field-trimmed"
+				}
 			}
 		}
 		w := wit(map[string]interface{}{"text": fmt.Sprintf("%q", text), "load_error": fmt.Sprint(err)})
